@@ -1,1 +1,259 @@
-/-! C25 — property theorems (stub: nothing proved yet). -/
+import B6.Lemmas.ProtoMapParallel
+import B6.Lemmas.MapSeq
+/-!
+# C25 — map-parallel returns map's results for any core count and schedule
+
+Model: `B6/Model/Proto/MapParallel.lean` (dispatcher, `n` workers, closer, consumer; one-slot channels), for ANY
+number of cores `n ≥ 1`, any number of items `N`, any set of failing items and any schedule.  Items are their
+indices; `map` yields `f xs[0], f xs[1], …` up to the first failing item and then that item's error.
+
+* `mp_invariant`   — in every reachable state the consumer has taken exactly items `0 … read-1`, item `k` only
+                     ever sits in lane `k % n`, lanes are in order, and the value waiting in `out[j]` is the next
+                     one the consumer expects from lane `j`;
+* `mp_result`      — in every terminal state the output is `0 … read-1`, none of them failing; without an error
+                     `read = N` (everything `map` yields); with an error it is the error of a failing item (so the
+                     output is a prefix of `map`'s, which stops at the first failing item);
+* `mp_no_deadlock` — every reachable non-terminal state has an enabled step;
+* `mp_terminates`  — a measure strictly decreases on every step, so every schedule is finite
+                     (`mp_schedule_bounded`).
+-/
+namespace B6.Props.C25
+open B6.Model.Proto B6.Model.Proto.MapParallel
+
+theorem mp_invariant (c : Cfg) (hn : 0 < c.n) (s : St) (h : Reachable (step c) (init c) s) :
+    s.out = List.range s.read ∧ s.read ≤ s.write ∧ s.write ≤ c.N ∧
+    ∀ (j : Nat) (l : Lane), s.lanes[j]? = some l →
+      (∀ k ∈ l.pipe, k % c.n = j ∧ s.read ≤ k ∧ k < s.write) ∧ l.pipe.Pairwise (· < ·) ∧
+      (∀ k, l.outq = some k → k < s.read + c.n) := by
+  have I := inv_reachable hn h
+  exact ⟨I.out, I.rle, I.wle, fun j l hl => ⟨(I.lanes j l hl).A, (I.lanes j l hl).B, (I.lanes j l hl).E⟩⟩
+
+theorem mp_result (c : Cfg) (hn : 0 < c.n) (s : St) (h : Reachable (step c) (init c) s)
+    (r : Option Nat) (hr : s.fin = some r) :
+    s.out = List.range s.read ∧ (∀ k, k < s.read → c.fails k = false) ∧ s.read ≤ c.N ∧
+    (r = none → s.read = c.N) ∧ (∀ e, r = some e → c.fails e = true ∧ e < c.N ∧ s.read ≤ e) := by
+  have I := inv_reachable hn h
+  obtain ⟨hrg, hoc, hq⟩ := I.finI r hr
+  obtain ⟨hde, hall⟩ := I.closer hoc
+  refine ⟨I.out, I.okout, Nat.le_trans I.rle I.wle, ?_, ?_⟩
+  · -- no error: everything was dispatched, nothing lost, every lane is empty — so everything was consumed
+    intro hrn
+    have hg : s.gerr = none := by rw [← hrg, hrn]
+    have hw : s.write = c.N := I.dispF (by rw [hde]; simp) hg
+    rcases Nat.lt_or_ge s.read s.write with hlt | hge
+    · exfalso
+      have hlen : s.read % c.n < s.lanes.length := by rw [I.len]; exact Nat.mod_lt _ hn
+      have hl : s.lanes[s.read % c.n]? = some s.lanes[s.read % c.n] := List.getElem?_eq_getElem hlen
+      have L := I.lanes _ _ hl
+      have hin := L.C (Or.inr hg) s.read (Nat.le_refl _) hlt rfl
+      have hwk := hall _ (List.getElem_mem hlen)
+      have hinq := (L.D hwk hg).1
+      have hoq := hq _ hl
+      simp [Lane.pipe, Wk.item, hwk, hinq, hoq] at hin
+    · have := I.rle; omega
+  · intro e he
+    have hg : s.gerr = some e := by rw [← hrg, he]
+    obtain ⟨h1, h2⟩ := I.gerrI e hg
+    refine ⟨h1, h2, ?_⟩
+    rcases Nat.lt_or_ge e s.read with hlt | hge
+    · have := I.okout e hlt; rw [h1] at this; cases this
+    · exact hge
+
+theorem mp_no_deadlock (c : Cfg) (hn : 0 < c.n) (s : St) (h : Reachable (step c) (init c) s)
+    (ht : terminal s = false) : step c s ≠ [] := by
+  have I := inv_reachable hn h
+  have hfin : s.fin = none := by
+    simp only [terminal] at ht; cases e : s.fin <;> simp_all
+  suffices ∃ s', s' ∈ step c s by
+    obtain ⟨s', hs'⟩ := this; intro e; rw [e] at hs'; cases hs'
+  have dstep : ∀ s', s' ∈ dispStep c s → s' ∈ step c s := fun s' hs' => mem_step.mpr ⟨hfin, Or.inl hs'⟩
+  have cstep : ∀ s', s' ∈ consumerStep c s → s' ∈ step c s := fun s' hs' =>
+    mem_step.mpr ⟨hfin, Or.inr (Or.inr (Or.inl hs'))⟩
+  have wstep : ∀ (j : Nat) (l : Lane) (s' : St), s.lanes[j]? = some l → s' ∈ workerStep c s j l → s' ∈ step c s :=
+    fun j l s' hl hs' => mem_step.mpr ⟨hfin, Or.inr (Or.inr (Or.inr ⟨j, l, hl, hs'⟩))⟩
+  -- the dispatcher can move unless it is in its select with nothing cancelled, or gone
+  by_cases hdc : s.disp = D.closing
+  · exact ⟨_, dstep _ (by simp [dispStep, hdc]; rfl)⟩
+  by_cases hdr : s.disp = D.running ∧ ¬ s.write < c.N
+  · exact ⟨_, dstep _ (by simp [dispStep, hdr.1, hdr.2]; rfl)⟩
+  by_cases hdd : s.disp = D.running ∧ s.gerr.isSome = true
+  · by_cases hw : s.write < c.N
+    · exact ⟨_, dstep _ (by simp [dispStep, hdd.1, hw, hdd.2]; right; rfl)⟩
+    · exact (hdr ⟨hdd.1, hw⟩).elim
+  -- a worker that is not blocked can move
+  have busyStep : ∀ (j : Nat) (l : Lane), s.lanes[j]? = some l →
+      (∃ k, l.wk = Wk.busy k) ∨ (∃ k, l.wk = Wk.failing k) ∨ (∃ k, l.wk = Wk.holding k ∧ (l.outq = none ∨ s.gerr.isSome = true))
+      ∨ (l.wk = Wk.idle ∧ (l.inq ≠ none ∨ s.inClosed = true)) → ∃ s', s' ∈ step c s := by
+    intro j l hl hc
+    rcases hc with ⟨k, hk⟩ | ⟨k, hk⟩ | ⟨k, hk, ho | hg⟩ | ⟨hk, hi | hic⟩
+    · exact ⟨_, wstep j l _ hl (by simp [workerStep, hk]; rfl)⟩
+    · exact ⟨_, wstep j l _ hl (by simp [workerStep, hk]; rfl)⟩
+    · exact ⟨_, wstep j l _ hl (by simp [workerStep, hk, ho]; left; rfl)⟩
+    · exact ⟨_, wstep j l _ hl (by simp [workerStep, hk, hg]; right; rfl)⟩
+    · cases hq : l.inq with
+      | none => exact (hi hq).elim
+      | some k => exact ⟨_, wstep j l _ hl (by simp [workerStep, hk, hq]; rfl)⟩
+    · cases hq : l.inq with
+      | none => exact ⟨_, wstep j l _ hl (by simp [workerStep, hk, hq, hic]; rfl)⟩
+      | some k => exact ⟨_, wstep j l _ hl (by simp [workerStep, hk, hq]; rfl)⟩
+  -- the consumer's lane
+  have hlen : s.read % c.n < s.lanes.length := by rw [I.len]; exact Nat.mod_lt _ hn
+  have hl : s.lanes[s.read % c.n]? = some s.lanes[s.read % c.n] := List.getElem?_eq_getElem hlen
+  generalize s.lanes[s.read % c.n] = lr at hl
+  have L := I.lanes _ _ hl
+  cases hoq : lr.outq with
+  | some k => exact ⟨_, cstep _ (by simp [consumerStep, hl, hoq]; rfl)⟩
+  | none =>
+  by_cases hoc : s.outClosed = true
+  · exact ⟨_, cstep _ (by simp [consumerStep, hl, hoq, hoc]; rfl)⟩
+  have hoc : s.outClosed = false := by simpa using hoc
+  -- when everybody has left, the closer can move
+  have closerStep : s.disp = D.exited → allExited s → ∃ s', s' ∈ step c s := fun hd ha =>
+    ⟨_, mem_step.mpr ⟨hfin, Or.inr (Or.inl ⟨hd, ha, hoc, rfl⟩)⟩⟩
+  cases hg : s.gerr with
+  | some e =>
+    -- cancelled: the dispatcher has gone; every worker that has not left can move
+    have hde : s.disp = D.exited := by
+      cases hd : s.disp with
+      | running => exact (hdd ⟨hd, by simp [hg]⟩).elim
+      | closing => exact (hdc hd).elim
+      | exited => rfl
+    have hic : s.inClosed = true := I.dispc.mpr hde
+    by_cases hall : allExited s
+    · exact closerStep hde hall
+    · obtain ⟨l, hl'⟩ := Classical.not_forall.mp hall
+      obtain ⟨hm, hne⟩ := Classical.not_imp.mp hl'
+      obtain ⟨j, hj⟩ := List.mem_iff_getElem?.mp hm
+      apply busyStep j l hj
+      cases hw : l.wk with
+      | idle => exact Or.inr (Or.inr (Or.inr ⟨rfl, Or.inr hic⟩))
+      | busy k => exact Or.inl ⟨k, rfl⟩
+      | holding k => exact Or.inr (Or.inr (Or.inl ⟨k, rfl, Or.inr (by simp [hg])⟩))
+      | failing k => exact Or.inr (Or.inl ⟨k, rfl⟩)
+      | exited => exact (hne hw).elim
+  | none =>
+    -- nothing has failed: the item the consumer waits for is in its lane, or everything has been consumed
+    have empty_of : lr.pipe = [] → s.read = s.write := by
+      intro hp
+      rcases Nat.lt_or_ge s.read s.write with hlt | hge
+      · have := L.C (Or.inr hg) s.read (Nat.le_refl _) hlt rfl; rw [hp] at this; cases this
+      · have := I.rle; omega
+    cases hw : lr.wk with
+    | busy k => exact busyStep _ lr hl (Or.inl ⟨k, hw⟩)
+    | failing k => exact busyStep _ lr hl (Or.inr (Or.inl ⟨k, hw⟩))
+    | holding k => exact busyStep _ lr hl (Or.inr (Or.inr (Or.inl ⟨k, hw, Or.inl hoq⟩)))
+    | idle =>
+      cases hiq : lr.inq with
+      | some k => exact busyStep _ lr hl (Or.inr (Or.inr (Or.inr ⟨hw, Or.inl (by simp [hiq])⟩)))
+      | none =>
+        have hrw := empty_of (by simp [Lane.pipe, Wk.item, hw, hiq, hoq])
+        cases hd : s.disp with
+        | closing => exact (hdc hd).elim
+        | exited => exact busyStep _ lr hl (Or.inr (Or.inr (Or.inr ⟨hw, Or.inr (I.dispc.mpr hd)⟩)))
+        | running =>
+          by_cases hwn : s.write < c.N
+          · -- the dispatcher can send the next item into this very lane
+            have hl2 : s.lanes[s.write % c.n]? = some lr := by rw [← hrw]; exact hl
+            exact ⟨_, dstep _ (by simp [dispStep, hd, hwn, hl2, hiq]; left; rfl)⟩
+          · exact (hdr ⟨hd, hwn⟩).elim
+    | exited =>
+      obtain ⟨hiq, hic⟩ := L.D hw hg
+      have hde : s.disp = D.exited := I.dispc.mp hic
+      have hrw := empty_of (by simp [Lane.pipe, Wk.item, hw, hiq, hoq])
+      by_cases hall : allExited s
+      · exact closerStep hde hall
+      · obtain ⟨l, hl'⟩ := Classical.not_forall.mp hall
+        obtain ⟨hm, hne⟩ := Classical.not_imp.mp hl'
+        obtain ⟨j, hj⟩ := List.mem_iff_getElem?.mp hm
+        have Lj := I.lanes j l hj
+        -- nothing is in flight, so this worker is idle in front of a closed channel
+        have hpe : l.pipe = [] := by
+          cases hp : l.pipe with
+          | nil => rfl
+          | cons a t =>
+            have := Lj.A a (by rw [hp]; simp); omega
+        apply busyStep j l hj
+        cases hw' : l.wk with
+        | idle => exact Or.inr (Or.inr (Or.inr ⟨rfl, Or.inr hic⟩))
+        | busy k => simp [Lane.pipe, Wk.item, hw'] at hpe
+        | holding k => simp [Lane.pipe, Wk.item, hw'] at hpe
+        | failing k => simp [Lane.pipe, Wk.item, hw'] at hpe
+        | exited => exact (hne hw').elim
+
+/-- Every step strictly decreases `measure` (5 per item not yet dispatched, 4/3/2/1 per item in `in` / being
+computed / computed / in `out`, 1 per goroutine that has not returned) — from ANY state, reachable or not. -/
+theorem mp_terminates (c : Cfg) (s s' : St) (h : s' ∈ step c s) : measure c s' < measure c s :=
+  measure_step h
+
+/-- … so every schedule is finite: no run is longer than the measure of the initial state. -/
+theorem mp_schedule_bounded (c : Cfg) : ∀ (sched : List Nat) (s s' : St),
+    runSched (step c) s sched = some s' → sched.length + measure c s' ≤ measure c s := by
+  intro sched
+  induction sched with
+  | nil => intro s s' h; simp [runSched] at h; subst h; simp
+  | cons a as ih =>
+    intro s s' h
+    simp only [runSched] at h
+    split at h
+    · next s1 hs1 =>
+      have h1 := measure_step (List.mem_of_getElem? hs1)
+      have h2 := ih s1 s' h
+      simp only [List.length_cons]; omega
+    · cases h
+
+/-! ## The same in terms of the values: `map-parallel f xs` against `map f xs` -/
+section Spec
+open B6.Spec.MapSeq
+variable {α β ε : Type}
+
+/-- the protocol instance for a concrete collection and function -/
+def cfgOf (n : Nat) (f : α → Except ε β) (xs : List α) : Cfg := { n := n, N := xs.length, fails := bad f xs }
+
+/-- the values the consumer has been handed -/
+def outVals (f : α → Except ε β) (xs : List α) (s : St) : List β := s.out.filterMap (val f xs)
+
+/-- **C25.** When `map-parallel` over `xs` with `n ≥ 1` cores ends (under any schedule):
+without an error the consumer has received exactly what `map` yields, in the same order, and `map` yields no
+error either; with an error it has received a prefix of what `map` yields, the error is the one `f` returns on
+some item of the collection, and `map` fails too. -/
+theorem mp_result_spec (n : Nat) (hn : 0 < n) (f : α → Except ε β) (xs : List α) (s : St)
+    (h : Reachable (step (cfgOf n f xs)) (init (cfgOf n f xs)) s) (r : Option Nat) (hr : s.fin = some r) :
+    (r = none → outVals f xs s = (mapSeq f xs).1 ∧ (mapSeq f xs).2 = none) ∧
+    (∀ e, r = some e → outVals f xs s <+: (mapSeq f xs).1 ∧ (mapSeq f xs).2.isSome = true ∧
+      ∃ x err, xs[e]? = some x ∧ f x = .error err) := by
+  obtain ⟨hout, hok, hle, hnone, hsome⟩ := mp_result (cfgOf n f xs) hn s h r hr
+  have htake := take_eq f xs s.read hle hok
+  have hvals : outVals f xs s = (mapSeq f xs).1.take s.read := by rw [outVals, hout]; exact htake.1
+  constructor
+  · intro hrn
+    have hN : s.read = xs.length := hnone hrn
+    have hlen := length_le f xs
+    refine ⟨?_, ?_⟩
+    · rw [hvals, List.take_of_length_le (by omega)]
+    · exact no_error f xs (by intro k hk; exact hok k (by omega))
+  · intro e he
+    obtain ⟨hbad, heN, _⟩ := hsome e he
+    refine ⟨by rw [hvals]; exact List.take_prefix _ _, has_error f xs e hbad, ?_⟩
+    simp only [cfgOf, bad] at hbad
+    split at hbad
+    · next x hx =>
+      split at hbad
+      · next err hfx => exact ⟨x, err, hx, hfx⟩
+      · cases hbad
+    · cases hbad
+
+end Spec
+
+/-! ## non-vacuity -/
+
+/-- 2 cores, 3 items, item 1 fails: a run that ends with the error after the consumer got item 0 -/
+def exCfg : Cfg := { n := 2, N := 3, fails := fun k => k == 1 }
+example : ∃ s, Reachable (step exCfg) (init exCfg) s ∧ s.fin = some (some 1) ∧ s.out = [0] :=
+  ⟨_, Reachable.of_runSched (List.replicate 18 0) _ _ .refl rfl, by decide⟩
+/-- … and 3 cores, 4 items, nothing fails: everything arrives in order -/
+def exCfg2 : Cfg := { n := 3, N := 4, fails := fun _ => false }
+example : ∃ s, Reachable (step exCfg2) (init exCfg2) s ∧ s.fin = some none ∧ s.out = [0, 1, 2, 3] :=
+  ⟨_, Reachable.of_runSched (List.replicate 27 0) _ _ .refl rfl, by decide⟩
+example : terminal (init exCfg) = false ∧ 0 < exCfg.n := by decide
+
+end B6.Props.C25
